@@ -89,7 +89,7 @@ def frame(ty, payload, rng, tform=None, lform=None, lendelta=0):
 
 class C02(Prop):
     id = "C02"
-    modules = ["H3.Props.C02"]
+    modules = ["H3.Props.C02", "H3.Lemmas.GenAgreeFrame"]
     engines = ["frame", "fs"]
     design_ref = "DESIGN.md section 7, C02 and Appendix B.1"
     level_text = ("Lean theorems (unbounded, all proved in full) over models of Frame::decode, FrameDecoder::decode, "
@@ -111,7 +111,8 @@ class C02(Prop):
             "varint forms, length field +-1/2, truncation at every offset) x all cuts if <=9 bytes else random cuts, Pending "
             "inserted, endings fin/open/reset; random call sequences; non-trivial = the implementation emitted at least one frame, "
             "data piece or error (not only `P`/`N`/bad-op)")
-    trusted = ["bytes::Bytes split_to/advance semantics"]
+    trusted = ["bytes::Bytes split_to/advance semantics",
+               "translator decision table H3.Gen.FrameDispatch (Frame::decode: frame type -> payload parser / Frame variant, the HTTP/2-reserved types, unknown = skipped) and H3.Gen.FrameErrCodes (arms of FrameDecoder::decode, got_frame_error), re-read from h3/src/proto/frame.rs, h3/src/frame.rs, h3/src/error/internal_error.rs on this run (any other shape of these functions is refused); tied to the model by H3.Lemmas.GenAgreeFrame (decode_agrees: H3.Frame.decode = the decoder written over the generated table, for every byte string), rebuilt on this run"]
     assumptions = ["transport chunks are non-empty (R-T)", "for RESET endings only the prefix claim is made (App. B.1)"]
 
     def cases(self, tier, rng):
